@@ -25,71 +25,32 @@ fn mk_incoming(k: u8, l0: u8, l1: u8) -> DatagramState {
     s
 }
 
-/// C06.d / C16.a: `DatagramState::received` with 0..=2 datagrams already buffered (arbitrary
-/// lengths): a datagram larger than the window (or any datagram when receiving is disabled) is a
-/// PROTOCOL_VIOLATION and changes nothing; otherwise the oldest buffered datagrams - and only as
-/// many as needed - are dropped, the new one is appended intact, and the buffered byte count
-/// equals the sum of what is queued and never exceeds the window.
-pub fn received(k: u8, l0: u8, l1: u8, n: u8, has_window: bool, window: u32) -> u32 {
-    // dispatch so that the queue shape is concrete in each branch
-    match k {
-        0 => received_k(0, l0, l1, n, has_window, window),
-        1 => received_k(1, l0, l1, n, has_window, window),
-        // (two queued datagrams: the queue shape after a data-dependent drop becomes symbolic and
-        //  the VecDeque index arithmetic no longer fits the SAT back end's memory - outside the claim)
-        2 if false => received_k(2, l0, l1, n, has_window, window),
-        _ => 0,
-    }
-}
+// NOTE: a Kani obligation for the element bound of the receive queue (`received_count_bound`) found the defect
+// (finding 19) but the repaired function - two drop loops over a VecDeque - makes CBMC's solver run out of memory even
+// with the queue shape and window concrete; the bound is decided by the E2 query e2_dgram_received_bounds instead.
 
-#[inline(always)]
-fn received_k(k: u8, l0: u8, l1: u8, n: u8, has_window: bool, window: u32) -> u32 {
-    let window = window as usize;
-    // reachable states respect the window
-    let total = (if k >= 1 { l0 as usize } else { 0 }) + (if k >= 2 { l1 as usize } else { 0 });
-    if has_window && total > window {
-        return 0;
+/// Native replay body for the E2 query `e2_dgram_received_bounds` (C03 / C06 / C16), and demonstration for
+/// finding 19: `n` datagrams WITHOUT payload arrive on a real `DatagramState` whose receive window is `window`
+/// bytes and whose application reads nothing.  They take no bytes - the queue must stay bounded all the same
+/// (window + 1 elements), dropping the oldest.
+pub fn received_count_native(window: u16, n: u16) -> u32 {
+    let mut s = DatagramState::default();
+    let w = Some(window as usize);
+    for i in 0..n {
+        let r = s.received(Datagram { data: Bytes::new() }, &w);
+        assert!(r.is_ok());
+        assert!(s.incoming.len() <= window as usize + 1, "{} empty datagrams queued after {} arrivals with a receive window of {} bytes: the queue grows without bound", s.incoming.len(), i + 1, window);
+        assert!(s.recv_buffered <= window as usize);
     }
-    let mut s = mk_incoming(k, l0, l1);
-    let w = if has_window { Some(window) } else { None };
-    let r = s.received(dg(n, true), &w);
-    let f;
-    if !has_window || n as usize > window {
-        assert!(matches!(&r, Err(e) if e.code == TransportErrorCode::PROTOCOL_VIOLATION));
-        assert!(s.incoming.len() == k as usize && s.recv_buffered == total);
-        f = 2;
-    } else {
-        let Ok(was_empty) = r else { panic!("datagram within the window must be accepted") };
-        assert!(was_empty == (total == 0));
-        // minimal number of oldest-first drops
-        let mut drops = 0usize;
-        let mut rem = total;
-        if k >= 1 && n as usize + rem > window {
-            rem -= l0 as usize;
-            drops = 1;
+    // payload-carrying datagrams are still bounded by bytes, oldest dropped first
+    if window >= 2 {
+        for _ in 0..4 {
+            assert!(s.received(dg((window / 2).min(255) as u8, true), &w).is_ok());
+            assert!(s.recv_buffered <= window as usize && s.incoming.len() <= window as usize + 1);
         }
-        if k >= 2 && n as usize + rem > window {
-            rem -= l1 as usize;
-            drops = 2;
-        }
-        assert!(s.incoming.len() == k as usize - drops + 1);
-        assert!(s.recv_buffered == rem + n as usize);
-        assert!(s.recv_buffered <= window);
-        // the new datagram is last and intact
-        let last = s.incoming.back().unwrap();
-        assert!(last.data.len() == n as usize && last.data.as_ptr() == ONES.as_ptr());
-        // survivors keep their order and content
-        if k == 2 && drops == 0 {
-            assert!(s.incoming[0].data.len() == l0 as usize && s.incoming[1].data.len() == l1 as usize);
-        }
-        if k == 2 && drops == 1 {
-            assert!(s.incoming[0].data.len() == l1 as usize && s.incoming[0].data.as_ptr() == ONES.as_ptr());
-        }
-        f = 1 | (if drops > 0 { 4 } else { 0 });
+        assert!(s.incoming.back().map(|d| d.data.len()) == Some((window / 2).min(255) as usize));
     }
-    core::mem::forget(s);
-    core::mem::forget(r);
-    f
+    1
 }
 
 /// C16.a: `recv` hands out each queued datagram exactly once, oldest first, byte-identical.
